@@ -47,15 +47,16 @@ def random_strings(min_size: int = 0, max_size: int = 10) -> Iterator:
 def random_floats(lower: float | None = None, upper: float | None = None) -> Iterator:
     # a bound that is not given is placed well beyond the given one (the fixed defaults -1e-6 and 1e6 could lie on
     # the wrong side of it)
+    # (beyond the largest finite float only the infinity itself is left: the derived bound never crosses the given one)
     if lower is None:
-        lower = -1e6 if upper is None else max(-sys.float_info.max, min(-1e6, upper - max(1e6, abs(upper))))
+        lower = -1e6 if upper is None else min(upper, max(-sys.float_info.max, min(-1e6, upper - max(1e6, abs(upper)))))
     if upper is None:
-        upper = min(sys.float_info.max, max(1e6, lower + max(1e6, abs(lower))))
+        upper = max(lower, min(sys.float_info.max, max(1e6, lower + max(1e6, abs(lower)))))
     yield lower
     yield upper
     # TODO: maybe first generate_true some smaller float
     while True:
-        yield random.uniform(lower, upper)
+        yield random.uniform(lower, upper) if lower < upper else lower
 
 
 def random_ints(lower: int | None = None, upper: int | None = None) -> Iterator[int]:
